@@ -297,6 +297,64 @@ fn do_lex(src: &str) -> String {
     }
 }
 
+fn mk_token(kind: &str, i: usize) -> Option<kiki::data::token::Token> {
+    use kiki::data::token::{Attribute, Ident, TerminalIdent, Token::*};
+    let b = ByteIndex(i);
+    Some(match kind {
+        "Underscore" => Underscore(b),
+        "Ident" => Ident(Ident { name: "x".to_string(), position: b }),
+        "TerminalIdent" => TerminalIdent(TerminalIdent {
+            name: DollarlessTerminalName::remove_dollars("X"),
+            dollarless_position: b,
+        }),
+        "OuterAttribute" => OuterAttribute(Attribute { src: "#[a]".to_string(), position: b }),
+        "StartKw" => StartKw(b),
+        "StructKw" => StructKw(b),
+        "EnumKw" => EnumKw(b),
+        "TerminalKw" => TerminalKw(b),
+        "Colon" => Colon(b),
+        "DoubleColon" => DoubleColon(b),
+        "Comma" => Comma(b),
+        "LParen" => LParen(b),
+        "RParen" => RParen(b),
+        "LCurly" => LCurly(b),
+        "RCurly" => RCurly(b),
+        "LAngle" => LAngle(b),
+        "RAngle" => RAngle(b),
+        _ => return None,
+    })
+}
+
+fn token_index(t: &kiki::data::token::Token) -> usize {
+    use kiki::data::token::Token::*;
+    match t {
+        Ident(i) => i.position.0,
+        TerminalIdent(i) => i.dollarless_position.0,
+        OuterAttribute(a) => a.position.0,
+        Underscore(p) | StartKw(p) | StructKw(p) | EnumKw(p) | TerminalKw(p) | Colon(p) | DoubleColon(p)
+        | Comma(p) | LParen(p) | RParen(p) | LCurly(p) | RCurly(p) | LAngle(p) | RAngle(p) => p.0,
+    }
+}
+
+/// Runs the real front-end parser on a sequence of token kinds (names separated by whitespace).
+fn do_parsekinds(src: &str) -> String {
+    let mut toks = vec![];
+    for (i, k) in src.split_whitespace().enumerate() {
+        match mk_token(k, i) {
+            Some(t) => toks.push(t),
+            None => return format!("{{\"status\":\"bad-kind\",\"kind\":{}}}", esc(k)),
+        }
+    }
+    let n = toks.len();
+    let r = panic::catch_unwind(move || hooks::parse(toks).map(|_| ()));
+    match r {
+        Ok(Ok(())) => format!("{{\"status\":\"ok\",\"n\":{}}}", n),
+        Ok(Err(Some(t))) => format!("{{\"status\":\"err\",\"index\":{},\"n\":{}}}", token_index(&t), n),
+        Ok(Err(None)) => format!("{{\"status\":\"err\",\"index\":null,\"n\":{}}}", n),
+        Err(p) => format!("{{\"status\":\"panic\",\"msg\":{}}}", esc(&panic_msg(p))),
+    }
+}
+
 fn run(cmd: &str, inp: &str, out: &str) {
     let bytes = std::fs::read(inp).expect("read input");
     let json = match String::from_utf8(bytes) {
@@ -304,6 +362,7 @@ fn run(cmd: &str, inp: &str, out: &str) {
         Ok(src) => match cmd {
             "gen" => do_gen(&src),
             "lex" => do_lex(&src),
+            "parsekinds" => do_parsekinds(&src),
             _ => panic!("unknown command"),
         },
     };
